@@ -91,7 +91,7 @@ RandomizedOK(x, s, e, y) ==
           /\ \A q \in 1..Len(x[i]) : /\ y[i][j][q] >= 0
                                      /\ (q <= s \/ q > e) => y[i][j][q] = x[i][q]
 
-Expected(c) ==
+ErsatzExpected(c) ==
     CASE c.op = "substitute"      -> ExpSubstitute(c.x, c.mo[1], c.start)
       [] c.op = "insert"          -> ExpInsert(c.x, c.mo[1], c.start)
       [] c.op = "delete"          -> ExpDelete(c.x, c.start, c.end)
